@@ -4,7 +4,7 @@
 //
 //	REQ pub <stack> <script> <closeErr> <msgs> <ops> @ inner=<hex> base=<ns> m<id>=<now>:<t0>:<t1> g<layer>.<id>=<now>:<t0>:<t1>
 //	OBS <res>/<inner calls>;…|inner=<topic>[<id>:<for>:<until>:<other>,…];…|gen=<id>,…|probe=<ok>/<err>/<empty>/<repub>|metrics=…|closes=<n>
-//	REQ sub <stack> <subErr> <close script: one bit per Close call> <n> <script a/n/u/A/N> <reads> @ inner=<hex>
+//	REQ sub <stack> <subscribe script: one bit per Subscribe call, 1 = refused> <close script: one bit per Close call> <n> <script a/n/u/A/N> <reads> @ inner=<hex>
 //	OBS sub=<res>|recv=<id>:<path>:<same object>:<inner settlement>,…|A=<metrics>|close=<res>/<inner closes>|chan=<closed>|B=<metrics>
 //	REQ rt <kp> <ks> <km> <script> <outcomes> @ pub=<hex> sub=<hex>
 //	OBS settle=<a|n…>|pub=<res>:<n msgs>;…|inv=<n>|metrics=…|close=ok
@@ -283,9 +283,12 @@ func statSub(out *wh.Out, c subCase) {
 	if c.reads < c.n {
 		out.Count("sub.close_with_unread_messages")
 	}
-	if c.subErr {
-		out.Count("sub.subscribe_error")
+	for _, e := range c.subs {
+		if e {
+			out.Count("sub.subscribe_refused")
+		}
 	}
+	out.Count("sub.subscribe_calls_x" + wh.Itoa(len(c.subs)))
 	for _, e := range c.closes {
 		if e {
 			out.Count("sub.close_error")
@@ -299,7 +302,12 @@ func genSub(out *wh.Out, a wh.Args, rng *wh.Rng) {
 		{n: 3, script: "anu", reads: 3, closes: []bool{false}},
 		{n: 2, script: "na", reads: 2, closes: []bool{true}},
 		{n: 0, reads: 0, closes: []bool{false}},
-		{n: 1, script: "a", reads: 0, subErr: true, closes: []bool{false}},
+		{n: 1, script: "a", reads: 0, subs: []bool{true}, closes: []bool{false}},
+		// the wrapped subscriber refuses a Subscribe, the caller retries and is accepted; messages and acks flow; Close
+		{n: 2, script: "an", reads: 2, subs: []bool{true, false}, closes: []bool{false}},
+		// accepted, messages and acks flow, a further Subscribe is refused, then Close (also retried after a failure)
+		{n: 2, script: "nu", reads: 2, subs: []bool{false, true}, closes: []bool{true, false}},
+		{n: 1, script: "A", reads: 1, subs: []bool{true, true, false}, closes: []bool{false}},
 		// settled after the subscription context was cancelled (ack and nack), next to ones settled while subscribed
 		{n: 4, script: "aANn", reads: 4, closes: []bool{false}},
 		{n: 3, script: "NuA", reads: 3, closes: []bool{false}},
@@ -314,6 +322,10 @@ func genSub(out *wh.Out, a wh.Args, rng *wh.Rng) {
 			}
 			c := p
 			c.stack = st
+			if len(c.subs) == 0 {
+				c.subs = []bool{false}
+			}
+			out.Begin(c.head())
 			req, obs := runSub(c)
 			out.Case(req, obs)
 			out.Count("sub.enumerated")
@@ -335,13 +347,25 @@ func genSub(out *wh.Out, a wh.Args, rng *wh.Rng) {
 		if c.n > 0 && rng.Intn(5) == 0 {
 			c.reads = rng.Intn(c.n)
 		}
-		c.subErr = rng.Intn(20) == 0
+		switch rng.Intn(12) {
+		case 0:
+			c.subs = []bool{true}
+		case 1:
+			c.subs = []bool{true, false}
+		case 2:
+			c.subs = []bool{false, true}
+		case 3:
+			c.subs = []bool{true, true, false}
+		default:
+			c.subs = []bool{false}
+		}
 		c.closes = []bool{rng.Intn(5) == 0}
 		if rng.Intn(3) == 0 {
 			for j, k := 0, 1+rng.Intn(2); j < k; j++ {
 				c.closes = append(c.closes, rng.Intn(3) == 0)
 			}
 		}
+		out.Begin(c.head())
 		req, obs := runSub(c)
 		out.Case(req, obs)
 		statSub(out, c)
@@ -374,11 +398,13 @@ func genRt(out *wh.Out, a wh.Args, rng *wh.Rng) {
 				return
 			}
 			c := rtCase{kp: kp, ks: ks, km: 1, script: []bool{false, true, false}, outcomes: []string{"s0", "s1", "e", "p", "s2", "s1"}}
+			out.Begin(c.head())
 			req, obs := runRt(c)
 			out.Case(req, obs)
 			statRt(out, c, obs)
 			// pass-through handlers: the consumed message object itself is published, alone and mixed with fresh outputs
 			c = rtCase{kp: kp, ks: ks, km: 1, script: []bool{false, false, true}, outcomes: []string{"t0-0", "t0-1", "t1-0", "s1", "t1-1", "p", "t0-0"}}
+			out.Begin(c.head())
 			req, obs = runRt(c)
 			out.Case(req, obs)
 			statRt(out, c, obs)
@@ -411,6 +437,7 @@ func genRt(out *wh.Out, a wh.Args, rng *wh.Rng) {
 		for j, k := 0, rng.Intn(5); j < k; j++ {
 			c.script = append(c.script, rng.Intn(3) == 0)
 		}
+		out.Begin(c.head())
 		req, obs := runRt(c)
 		out.Case(req, obs)
 		statRt(out, c, obs)
@@ -436,6 +463,7 @@ func genCh(out *wh.Out, a wh.Args, rng *wh.Rng) {
 				return
 			}
 			c := chCase{subStack: ss, pubStack: ps, script: []bool{false, true}, n: 3}
+			out.Begin(c.head())
 			out.Case(runCh(c))
 			statCh(out, c)
 		}
@@ -456,6 +484,7 @@ func genCh(out *wh.Out, a wh.Args, rng *wh.Rng) {
 		for j, k := 0, rng.Intn(5); j < k; j++ {
 			c.script = append(c.script, rng.Intn(3) == 0)
 		}
+		out.Begin(c.head())
 		out.Case(runCh(c))
 		statCh(out, c)
 	}
